@@ -12,7 +12,7 @@ for d in sorted(os.listdir(os.path.join(V, "seeded"))):
     # first sentence-ish, shortened
     short = summ[:260] + ("..." if len(summ) > 260 else "")
     needs = re.sub(r"\s+", " ", m.get("needs") or "")[:200]
-    notes = re.sub(r"\s+", " ", m.get("detection_notes") or "")[:330]
+    notes = re.sub(r"\s+", " ", m.get("detection_notes") or m.get("checks_stay_green") or "")[:330]
     rows.append("| %s | %s | %s | %s | %s |" % (d, short.replace("|", "/"), needs.replace("|", "/"), m.get("detected_by_check"), notes.replace("|", "/")))
 table = "| seed | change | needs | caught | by / notes |\n|---|---|---|---|---|\n" + "\n".join(rows)
 p = os.path.join(V, "DESIGN.md")
